@@ -8,6 +8,7 @@ This abstraction is tied to the real parser by the correspondence run of `bin/ch
 table, tree shapes compared).
 -/
 import Oq3.Gen.Ops
+import Oq3.Gen.TokenSets
 
 namespace Oq3.Pratt
 open Oq3.Gen
@@ -20,6 +21,9 @@ abbrev Op := SyntaxKind
 structure Tab where
   pow : Op → Nat
   assoc : Op → Assoc
+  /-- may an expression start with this prefix operator? (`expr_bp` first tests
+  `p.at_ts(EXPR_FIRST)`) -/
+  preOK : Op → Bool
 
 inductive Tok
   | atom (n : Nat)            -- identifier / literal / any primary with its postfix operators
@@ -63,9 +67,11 @@ def primary (t : Tab) : Nat → List Tok → Option (E × List Tok)
     match ts with
     | .atom n :: ts => some (.atom n, ts)
     | .pre o :: ts =>
-      match exprBp t fuel prefixBp ts with
-      | some (e, ts') => some (.pre o e, ts')
-      | none => none
+      if t.preOK o then
+        match exprBp t fuel prefixBp ts with
+        | some (e, ts') => some (.pre o e, ts')
+        | none => none
+      else none
     | .lp :: ts =>
       match exprBp t fuel 1 ts with
       | some (e, .rp :: ts') => some (.paren e, ts')
@@ -96,6 +102,7 @@ def rowFor (o : Op) : Option (Nat × Ops.Assoc) :=
 `current_op` returns them (0 = not an operator) -/
 def implTab : Tab :=
   { pow := fun o => match rowFor o with | some (bp, _) => bp | none => 0
-    assoc := fun o => match rowFor o with | some (_, .right) => .right | _ => .left }
+    assoc := fun o => match rowFor o with | some (_, .right) => .right | _ => .left
+    preOK := fun o => TokenSets.EXPR_FIRST.contains o }
 
 end Oq3.Pratt
